@@ -2,12 +2,15 @@
 package props
 
 import (
+	"context"
 	"crypto/sha256"
 	"encoding/binary"
 	"fmt"
 	"math/rand"
 	"runtime"
 	"sync"
+	"time"
+	"verifharness/peer"
 
 	tls "github.com/refraction-networking/utls"
 	"verifharness/mon"
@@ -129,3 +132,100 @@ func buildHello(cfg *tls.Config, id tls.ClientHelloID, prep func(u *tls.UConn) e
 func u16s(v []uint16) string { return fmt.Sprintf("%04x", v) }
 
 var _ = wire.IsGREASE
+
+// sendHello runs a real Handshake against a peer that only reads the client's first
+// flight and then closes; it returns the ClientHello handshake messages actually
+// written to the wire (reassembled from the tapped records).
+func sendHello(cfg *tls.Config, id tls.ClientHelloID, prep func(u *tls.UConn) error) (hellos [][]byte, c2s []byte, herr error, panicked string) {
+	c, s, tap := peer.Pipe()
+	dl := time.Now().Add(peer.IODeadline)
+	c.SetDeadline(dl)
+	s.SetDeadline(dl)
+	done := make(chan struct{})
+	go func() {
+		defer close(done)
+		buf := make([]byte, 70000)
+		var got []byte
+		for {
+			n, err := s.Read(buf)
+			got = append(got, buf[:n]...)
+			if hs := wire.ClientHellos(got); len(hs) > 0 {
+				break
+			}
+			if err != nil {
+				break
+			}
+		}
+		s.Close()
+	}()
+	func() {
+		defer func() {
+			if r := recover(); r != nil {
+				panicked = fmt.Sprintf("%v", r)
+				herr = fmt.Errorf("panic: %v", r)
+			}
+		}()
+		u := tls.UClient(c, cfg, id)
+		if prep != nil {
+			if err := prep(u); err != nil {
+				herr = err
+				return
+			}
+		}
+		herr = u.Handshake()
+	}()
+	c.Close()
+	<-done
+	c2s, _ = tap.Snapshot()
+	return wire.ClientHellos(c2s), c2s, herr, panicked
+}
+
+// quicFirstHello starts a UQUICConn with the given spec and returns the first CRYPTO
+// data it emits (the ClientHello handshake message).  hung=true if Start did not return
+// within 3 s (that is C23's subject, not C02's).
+func quicFirstHello(cfg *tls.Config, spec *tls.ClientHelloSpec) (raw []byte, err error, panicked string, hung bool) {
+	type res struct {
+		raw []byte
+		err error
+		p   string
+	}
+	ch := make(chan res, 1)
+	ctx, cancel := context.WithCancel(context.Background())
+	defer cancel()
+	go func() {
+		var out res
+		defer func() {
+			if r := recover(); r != nil {
+				out.p = fmt.Sprint(r)
+			}
+			ch <- out
+		}()
+		q := tls.UQUICClient(&tls.QUICConfig{TLSConfig: cfg}, tls.HelloCustom)
+		if out.err = q.ApplyPreset(spec); out.err != nil {
+			return
+		}
+		q.SetTransportParameters([]byte{})
+		if out.err = q.Start(ctx); out.err != nil {
+			return
+		}
+		for {
+			e := q.NextEvent()
+			if e.Kind == tls.QUICNoEvent {
+				break
+			}
+			if e.Kind == tls.QUICWriteData && out.raw == nil {
+				out.raw = append([]byte(nil), e.Data...)
+			}
+		}
+		q.Close()
+		if out.raw == nil {
+			out.err = fmt.Errorf("no CRYPTO data emitted")
+		}
+	}()
+	select {
+	case o := <-ch:
+		return o.raw, o.err, o.p, false
+	case <-time.After(3 * time.Second):
+		return nil, nil, "", true
+	}
+}
